@@ -509,7 +509,10 @@ class CoherentFeedForwardLoop:
         with self._lock:
             if cache_key in self._cache:
                 result, timestamp = self._cache[cache_key]
-                if datetime.now() - timestamp < self.cache_ttl:
+                # A cached decision stands only for the gate logic that made it:
+                # gate_logic is a public attribute and may have been re-assigned.
+                if (datetime.now() - timestamp < self.cache_ttl
+                        and result.gate_logic == self.gate_logic):
                     return result
                 else:
                     del self._cache[cache_key]
